@@ -247,6 +247,30 @@ class IrToPythonCompiler:
                 self.emit("return math.copysign(math.inf, sign)")
             self.emit("return x / y")
 
+        # Round to single precision (python floats are doubles):
+        self.emit("@staticmethod")
+        with self.func_def("f32(x):"):
+            self.emit("if isinstance(x, int) and abs(x).bit_length() > 24:")
+            with self.indented():
+                # Round the integer to 24 significant bits (ties to even)
+                # ourselves, to prevent rounding twice (via double).
+                self.emit("sign = -1 if x < 0 else 1")
+                self.emit("x = abs(x)")
+                self.emit("shift = x.bit_length() - 24")
+                self.emit("half = 1 << (shift - 1)")
+                self.emit("low = x & ((1 << shift) - 1)")
+                self.emit("x >>= shift")
+                self.emit("if low > half or (low == half and x & 1):")
+                with self.indented():
+                    self.emit("x += 1")
+                self.emit("x = sign * (x << shift)")
+            self.emit("try:")
+            with self.indented():
+                self.emit('return struct.unpack("f", struct.pack("f", x))[0]')
+            self.emit("except OverflowError:")
+            with self.indented():
+                self.emit("return math.copysign(math.inf, x)")
+
         with self.func_def("alloca(self, amount):"):
             self.emit("ptr = len(self.stack)")
             self.emit("self.stack.extend(bytes(amount))")
@@ -485,7 +509,9 @@ class IrToPythonCompiler:
             )
         elif ins.ty is ir.ptr:
             self.emit(f"{ins.name} = int({ins.src.name})")
-        elif ins.ty in [ir.f32, ir.f64]:
+        elif ins.ty is ir.f32:
+            self.emit(f"{ins.name} = rt.f32({ins.src.name})")
+        elif ins.ty is ir.f64:
             self.emit(f"{ins.name} = float({ins.src.name})")
         else:  # pragma: no cover
             raise NotImplementedError(str(ins))
@@ -519,6 +545,8 @@ class IrToPythonCompiler:
             bits = ins.ty.bits
             signed = ins.ty.signed
             self.emit(f"{ins.name} = rt.correct({ins.name}, {bits}, {signed})")
+        elif ins.ty is ir.f32:
+            self.emit(f"{ins.name} = rt.f32({ins.name})")
 
     def gen_load(self, ins):
         address = self.fetch_value(ins.address)
